@@ -1,6 +1,12 @@
 //! Link state and link flow state
 
-use std::{marker::PhantomData, sync::Arc};
+use std::{
+    marker::PhantomData,
+    sync::{
+        atomic::{AtomicU32, Ordering},
+        Arc,
+    },
+};
 
 use fe2o3_amqp_types::definitions::{Fields, SequenceNo};
 use parking_lot::RwLock;
@@ -96,6 +102,9 @@ impl LinkFlowStateInner {
 #[derive(Debug)]
 pub(crate) struct LinkFlowState<R> {
     pub(crate) lock: RwLock<LinkFlowStateInner>,
+    /// Deliveries that the session has forwarded to the receiving link but that the
+    /// link has not yet accounted for in `delivery_count` / `link_credit`.
+    pub(crate) pending_deliveries: AtomicU32,
     role: PhantomData<R>,
 }
 
@@ -103,6 +112,7 @@ impl<R> LinkFlowState<R> {
     pub(crate) fn new(inner: LinkFlowStateInner) -> Self {
         Self {
             lock: RwLock::new(inner),
+            pending_deliveries: AtomicU32::new(0),
             role: PhantomData,
         }
     }
@@ -206,8 +216,14 @@ impl LinkFlowState<role::ReceiverMarker> {
         // value from the sender and any subsequent messages received on the link. Note that,
         // despite its name, the delivery-count is not a count but a sequence number
         // initialized at an arbitrary point by the sender.
+        //
+        // The flow is handled in the session task, ahead of any earlier deliveries that are
+        // still queued for the link: those were sent before the flow, are already included
+        // in the sender's delivery-count and will be counted again when the link consumes
+        // them, so they are taken off here.
         if let Some(delivery_count) = flow.delivery_count {
-            state.delivery_count = delivery_count;
+            let pending = self.pending_deliveries.load(Ordering::Acquire);
+            state.delivery_count = delivery_count.wrapping_sub(pending);
         }
 
         // link credit
@@ -284,8 +300,20 @@ impl LinkFlowState<role::ReceiverMarker> {
         } else {
             state.delivery_count = state.delivery_count.wrapping_add(count);
             state.link_credit = state.link_credit.saturating_sub(count);
+            let _ = self
+                .pending_deliveries
+                .fetch_update(Ordering::AcqRel, Ordering::Acquire, |pending| {
+                    Some(pending.saturating_sub(count))
+                });
             Ok(())
         }
+    }
+
+    /// Records that a complete delivery is about to be queued for the link
+    pub(crate) fn on_delivery_queued(&self) {
+        // Taken under the lock so that a flow handled concurrently sees a consistent pair
+        let _state = self.lock.write();
+        self.pending_deliveries.fetch_add(1, Ordering::AcqRel);
     }
 }
 
